@@ -8,7 +8,7 @@ from rules_seq import V, method_segments, site_of_seg, first_site, where_of, sam
 from rules_pos import body_case, simulate, subject_node
 from rules_ttl import clock_syms, top_of
 from stdmodel import typeclass
-from symex import show
+from symex import show, show_site
 
 
 def count_read_of(ent_test, t, roles, L):
@@ -263,6 +263,16 @@ def check_age_loop(res, prop, cm, roles, m, parent, lp, segs, clocks):
             adds = [e for e in s.effects if e.kind == 'AUX_ADD' and e.aux == aux]
             dels = [e for e in s.effects if e.kind == 'AUX_DEL' and e.aux == aux]
             bps = [e for e in s.effects if e.kind == 'BACKPTR' and e.field == bp]
+            if not adds and not dels and not bps and any(
+                    isinstance(t, tuple) and len(t) > 2 and t[0] == 'q' and t[1] in ('upper_bound', 'lower_bound', 'equal_range') and t[2] == THIS(aux)
+                    for c in s.conds for t in lift.subterms(c[4])):
+                # the re-file is skipped after looking at where the entry stands among the entries of equal count: whether erase +
+                # emplace would put it back exactly there is multimap tie-order reasoning the model does not do
+                msg = ('G-UNKNOWN aging re-file skipped depending on the entry\'s place among equal use counts (not modelled) in %s reached from %s::%s'
+                       % (show_site(site_of_seg(s, m)), cm.name, m.key()))
+                if msg not in res.incomplete:
+                    res.incomplete.append(msg)
+                continue
             if not (len(adds) == 1 and len(dels) == 1 and len(bps) == 1 and bps[0].val == adds[0].res
                     and same_scan(adds[0].ent) and same_scan(dels[0].ent) and same_scan(bps[0].ent)
                     and s.effects.index(dels[0]) < s.effects.index(bps[0])):
